@@ -510,8 +510,7 @@ func (a *genWalker) pieces(e ast.Expr) ([]genPiece, bool) {
 						}
 						d.first['\\'], d.rest['\\'] = false, false
 						d.raw = false
-						d.what = "Quote(" + d.what + ")"
-						d.quoted = true
+						d.quoted = true // (the description stays that of the value: quoting only escapes)
 						out = append(out, genPiece{dyn: &d})
 					} else if p.alts == nil && p.group == nil && p.emit == nil {
 						out = append(out, genPiece{konst: strings.Trim(strconv.Quote(p.konst), `"`)})
